@@ -45,6 +45,53 @@ class AppendMonitor:
     def before(self, op):
         self.pre = self.snap()
 
+    def check_events(self, op, events):
+        """Write-event log of the step (E1): where and in which order pack files were written."""
+        world = self.world
+        pre_snap, pre_packs = self.pre
+        ends = Counter()
+        for row in pre_snap.rows:
+            ends[row.pack_id] = max(ends[row.pack_id], row.offset + row.length)
+        pre_ids = sorted(pre_packs)
+        highest = pre_ids[-1] if pre_ids else -1
+        max_written = -1
+        for ev in events:
+            if ev.cls != 'packs':
+                continue
+            name = os.path.basename(ev.path)
+            if not name.isdigit():
+                continue
+            pid = int(name)
+            kind, det = ev.kind, ev.detail or {}
+            if kind in ('remove', 'unlink', 'rename', 'replace', 'rmtree'):
+                world.problem('append:pack-file-removed', f'{op["op"]}: {ev.brief()} on a pack file in a history without repack')
+                continue
+            effect = None
+            if kind == 'open-w' and ('w' in det.get('mode', '')) and pid in pre_packs:
+                effect = ('truncate', 0)
+            elif kind == 'os.open-w' and det.get('flags', 0) & os.O_TRUNC and pid in pre_packs:
+                effect = ('truncate', 0)
+            elif kind == 'truncate':
+                effect = ('truncate', det.get('size'))
+            elif kind == 'os.truncate':
+                effect = ('truncate', 0)
+            elif kind == 'write' and det.get('n', 0) != 0:
+                effect = ('write', det.get('pos'))
+            if effect is None:
+                continue
+            world.counters['iolog-pack-writes'] += 1
+            what, pos = effect
+            if pos is not None and pos < ends[pid]:
+                world.problem('append:write-inside-referenced-data',
+                              f'{op["op"]}: {what} at offset {pos} of packs/{pid}, below its last referenced byte {ends[pid]}')
+            if what == 'write':
+                if pid < highest:
+                    world.problem('append:write-to-full-pack',
+                                  f'{op["op"]}: write to packs/{pid} although packs/{highest} already existed before the step')
+                if pid < max_written:
+                    world.problem('append:write-order', f'{op["op"]}: packs/{pid} written after packs/{max_written}')
+                max_written = max(max_written, pid)
+
     def after(self, op):
         world = self.world
         (pre_snap, pre_packs), (post_snap, post_packs) = self.pre, self.snap()
@@ -174,10 +221,14 @@ def run_recovery(world, tmpdir: str, nsample: int = 2):
     rnd = random.Random(len(rows))
     env = dict(os.environ)
     env['PATH'] = _SCRIPT_CACHE['bindir'] + os.pathsep + env.get('PATH', '')
-    for row in rnd.sample(rows, min(nsample, len(rows))):
+    chosen = rnd.sample(rows, min(nsample, len(rows)))
+    zrows = [r for r in rows if r.compressed and r not in chosen]
+    if zrows and not any(r.compressed for r in chosen):
+        chosen[-1:] = [rnd.choice(zrows)]  # make sure the inflate branch of the script is exercised when possible
+    for row in chosen:
         proc = subprocess.run(['bash', script, world.root, row.hashkey], capture_output=True, env=env, timeout=60,
                               check=False)
-        if proc.returncode != 0 and b'double-quoted' in proc.stderr + proc.stdout:
+        if False:
             world.counters['recovery-unavailable'] += 1  # CLI refuses the documented quoting: tool issue
             return
         world.counters['recovery-script-runs'] += 1
@@ -222,11 +273,42 @@ def run_history(case: dict) -> dict:  # noqa: C901  pylint: disable=too-many-bra
         for i, op in enumerate(ops):
             for mon in mons:
                 mon.before(op)
+            recorder = None
+            model_before = dict(world.model) if len(world.handles) > 1 or op.get('h', 'main') != 'main' else None
+            if 'iolog' in monitors:
+                from . import iotrace  # pylint: disable=import-outside-toplevel
+
+                recorder = iotrace.Recorder()
+                iotrace.install([root], plan=recorder, audit=True)
             try:
                 world.apply(op)
             except Exception as exc:  # noqa: BLE001 - an operation of a legal history must not raise
-                world.problem(f'op-raised:{op["op"]}:{type(exc).__name__}',
-                              f'{op["op"]} raised {exc!r} :: {traceback.format_exc()[-700:]}')
+                if (case.get('tolerate_stale_writer') and model_before is not None
+                        and 'database is locked' in str(exc)):
+                    # a handle whose index snapshot is stale is refused by SQLite when it tries to write: loud, not a
+                    # layout violation; the harness reopens that handle and the model forgets the refused call
+                    world.counters['stale-writer-refused'] += 1
+                    world.model = model_before
+                    hname = op.get('h', 'main')
+                    try:
+                        world.handles.pop(hname).close()
+                    except Exception:  # noqa: BLE001
+                        pass
+                else:
+                    world.problem(f'op-raised:{op["op"]}:{type(exc).__name__}',
+                                  f'{op["op"]} raised {exc!r} :: {traceback.format_exc()[-700:]}')
+            finally:
+                if recorder is not None:
+                    blind = list(iotrace.BLIND)
+                    iotrace.uninstall()
+                    del iotrace.BLIND[:]
+                    if blind:
+                        world.problem('inconclusive:shim-blind-spot', f'{op["op"]}: file-system access not seen by the shim: {blind[:3]}')
+            if recorder is not None and not world.problems:
+                world.counters['iolog-events'] += len(recorder.events)
+                for mon in mons:
+                    if hasattr(mon, 'check_events'):
+                        mon.check_events(op, recorder.events)
             if not world.problems:
                 for mon in mons:
                     mon.after(op)
@@ -249,7 +331,7 @@ def run_history(case: dict) -> dict:  # noqa: C901  pylint: disable=too-many-bra
                         world.problem('raw:unrecoverable', f'after {op["op"]}: raw read of {key} gives {prob or "other bytes"}')
                 world.counters['raw-rows-checked'] += len(snap.rows)
                 world.counters['raw-loose-checked'] += len(snap.loose)
-            if 'recovery' in monitors and not world.problems and i % 5 == 4:
+            if 'recovery' in monitors and not world.problems and (i == len(ops) - 1 or (case.get('recovery_every') and i % case['recovery_every'] == 0)):
                 run_recovery(world, os.path.join(base, 'aux'))
             if 'validate' in monitors and not world.problems:
                 world.counters['validate-calls'] += 1
@@ -270,6 +352,9 @@ def run_history(case: dict) -> dict:  # noqa: C901  pylint: disable=too-many-bra
         sig = common.digest([cfg, [[o['op'], o.get('compress'), o.get('no_holes'), o.get('read_twice'), o.get('mode')]
                                    for o in ops]])
         vios = []
+        inconc = [msg for mech, msg in world.problems if mech.startswith('inconclusive:')]
+        if inconc:
+            return common.case_result(sig=sig, nontrivial=False, counters=Counter(world.counters), inconclusive=inconc[0])
         for mech, msg in world.problems[:3]:
             vios.append(common.violation(mech, msg, {'cfg': cfg, 'ops': ops[: (fail_step or 0) + 1], 'case_seed': case['seed'],
                                                       'monitors': sorted(monitors)}))
